@@ -7,6 +7,7 @@ import (
 	"regexp"
 	"strconv"
 	"strings"
+	"sync"
 	"time"
 
 	cdc "github.com/craterdog/go-collection-framework/v4/cdcn"
@@ -15,6 +16,7 @@ import (
 	"verif/checks/common"
 	"verif/engine"
 	"verif/engine/dump"
+	"verif/engine/schedx"
 )
 
 type inCase struct {
@@ -510,6 +512,7 @@ func deepSets(r *engine.Rec) {
 }
 
 func init() {
+	engine.RegisterRacePrograms("C12", racePrograms)
 	engine.Register(&engine.Check{
 		ID:        "C12",
 		Technique: "bounded-exhaustive input enumeration on the real scanner+parser, each parse run as a two-thread program under the scheduler (so a parked scanner goroutine after the call is a scheduler fact, not a sleep-and-count): all strings of <=4 lexemes over an 18-lexeme alphabet plus all <=5-lexeme strings starting with '[', all strings of <=3 raw characters, every prefix/deletion/insertion/substitution/context swap/illegal-character injection of a corpus, a nesting ladder; non-termination by fuel",
@@ -526,11 +529,103 @@ func init() {
 			for _, l := range lexemes {
 				us = append(us, engine.Unit{Name: "lexemes-" + strconv.Quote(l), Run: lexemeUnit(l)})
 			}
-			us = append(us, engine.Unit{Name: "raw-characters", Run: rawChars}, engine.Unit{Name: "nesting-ladder", Run: ladder}, engine.Unit{Name: "parser-reuse", Run: reuse}, engine.Unit{Name: "deep-items", Run: deepSets})
+			us = append(us, engine.Unit{Name: "raw-characters", Run: rawChars}, engine.Unit{Name: "nesting-ladder", Run: ladder}, engine.Unit{Name: "parser-reuse", Run: reuse}, engine.Unit{Name: "deep-items", Run: deepSets}, engine.RacePassUnit("C12"),
+				engine.Unit{Name: "simultaneous-valid", Run: simultaneous("simultaneous-valid", [2]string{"[1, 2](List)", "['a'](Set)"})},
+				engine.Unit{Name: "simultaneous-rejected", Run: simultaneous("simultaneous-rejected", [2]string{"[1 2, 3](List)", "[4, 5 6](Stack)"})},
+				engine.Unit{Name: "simultaneous-valid-and-rejected", Run: simultaneous("simultaneous-valid-and-rejected", [2]string{"[1, 2](List)", "[4 5, 6](Stack)"})})
 			for di := range corpus {
 				us = append(us, engine.Unit{Name: fmt.Sprintf("corpus-edits-%d", di), Run: corpusEdits(di)})
 			}
 			return us
 		},
 	})
+}
+
+// racePrograms: parses that run at the same time, for the auxiliary pass under
+// Go's race detector. The first program is the first thing the process does,
+// so whatever the scanner or parser classes set up lazily is set up by several
+// goroutines at once.
+func racePrograms() []engine.RaceProgram {
+	mk := func(name string, docs []string) engine.RaceProgram {
+		return engine.RaceProgram{Name: name, Run: func() {
+			var start, done sync.WaitGroup
+			start.Add(1)
+			for _, d := range docs {
+				d := d
+				done.Add(1)
+				go func() {
+					defer done.Done()
+					defer func() { recover() }()
+					start.Wait()
+					cdc.Notation().Make().ParseSource(d)
+				}()
+			}
+			start.Done()
+			done.Wait()
+		}}
+	}
+	valid := []string{"[1, 2, 3](List)", "[\n    \"a\": 1\n    \"b\": [true, false](Set)\n](Map)\n", "[ ](Array)\n", "[1.5, (1.0+2.0i), 'a', 0xff, nil](Stack)"}
+	bad := []string{"[1 2, 3, 4](List)", "[\n    1\n    2 3\n](List)\n", "[\"a\": ](Catalog)", "[1](Lisp)", "[1, 2, 3, 4, 5, 6, 7, 8, 9, 10, 11, 12, 13, 14, 15, 16, 17, 18 19, 20](List)"}
+	return []engine.RaceProgram{
+		mk("first parses of the process, all at once", append(append([]string(nil), valid...), valid...)),
+		mk("rejected sources at the same time", append(append([]string(nil), bad...), bad...)),
+		mk("valid and rejected sources at the same time", append(append([]string(nil), valid...), bad...)),
+	}
+}
+
+// simultaneous: two calls of ParseSource at the same time, explored from warm
+// and from cold package-level state (what the scanner and parser classes set up
+// lazily is then set up during the explored executions): each call must end as
+// it ends alone, no goroutine may be left behind, and no execution may race.
+func simultaneous(name string, docs [2]string) func(r *engine.Rec) {
+	return func(r *engine.Rec) {
+		var want [2]string
+		for i, d := range docs {
+			res := cdcnx.Parse(d)
+			want[i] = "value"
+			if res.Out.Panicked {
+				want[i] = firstLine(res.Out.Value)
+			}
+		}
+		prog := func() ([]rt.ThreadSpec, func(*rt.Exec) []string) {
+			var outs [2]rt.Outcome
+			mk := func(i int) rt.ThreadSpec {
+				return rt.ThreadSpec{Name: fmt.Sprint("caller", i), Body: func() {
+					outs[i] = rt.Protect(0, func() { cdc.Notation().Make().ParseSource(docs[i]) })
+				}}
+			}
+			return []rt.ThreadSpec{mk(0), mk(1)}, func(ex *rt.Exec) []string {
+				var what []string
+				for i := range docs {
+					got := "value"
+					if outs[i].Panicked {
+						got = firstLine(outs[i].Value)
+					}
+					switch {
+					case outs[i].Panicked && outs[i].Runtime:
+						what = append(what, "ParseSource fails with a Go runtime error when another parse runs at the same time: "+common.PanicClass(outs[i].Value)+"\x00"+fmt.Sprintf("%q: %s", docs[i], outs[i].Value))
+					case got != want[i]:
+						what = append(what, "ParseSource ends differently when another parse runs at the same time\x00"+fmt.Sprintf("%q: %q, alone %q", docs[i], got, want[i]))
+					}
+				}
+				if len(ex.Stuck) > 0 {
+					what = append(what, "a call or a scanner goroutine is parked forever with two parses at the same time\x00"+fmt.Sprint(ex.SortedStuck()))
+				}
+				for _, rc := range ex.Races {
+					what = append(what, common.RaceSig(rc)+"\x00"+rc.String())
+				}
+				for _, p := range ex.Panics {
+					if p.Library {
+						what = append(what, "the scanner goroutine panics: "+common.PanicClass(p.Value)+"\x00"+p.Value)
+					}
+				}
+				return what
+			}
+		}
+		o := schedx.Opts{Name: name, Desc: docs[0] + " || " + docs[1], SigPrefix: "two parses: ", SkipA: true, Bounds: []int{0, 1}, CapB: 30000, ColdStart: []int{0, 1}, ColdCap: 30000}
+		if r.Tier == "thorough" {
+			o.Bounds, o.CapB, o.ColdStart, o.ColdCap = []int{0, 1, 2}, 1000000, []int{0, 1, 2}, 1000000
+		}
+		schedx.Explore(r, prog, o)
+	}
 }
